@@ -25,6 +25,7 @@ type dfile struct {
 	data    []byte
 
 	id        age.Identity
+	ifaceOnly bool   // quick tier: only the optional-interface kinds run on this file
 	kclass    string // class used in violation keys (class when empty)
 	ws        bool   // valid armor with added leading/trailing white space (treated like marmor for read sizes)
 	leadLines int    // white-space-only lines before BEGIN
@@ -185,11 +186,12 @@ func (m *monitor) buildFiles() []*dfile {
 	defer t.Uninstall()
 
 	type baseSpec struct {
-		name   string
-		length int
-		party  string
-		extra  age.Recipient
-		full   bool // every damage class (otherwise the reduced set below)
+		name      string
+		length    int
+		party     string
+		extra     age.Recipient
+		full      bool // every damage class (otherwise the reduced set below)
+		ifaceOnly bool
 	}
 	reduced := map[string]bool{"flip-last": true, "trunc-boundary": true, "trunc-mid-last": true, "trailing-1": true,
 		"hdr-trunc": true, "nonce-trunc": true, "mac-flip": true, "armor-badchar": true, "armor-trailing-garbage": true, "armor-no-final-newline": true}
@@ -198,11 +200,15 @@ func (m *monitor) buildFiles() []*dfile {
 		// quick tier: every class on 0, 1, 65536, 131072 and 196609 bytes (the
 		// first, third, fifth and sixth lengths), the reduced set elsewhere
 		full := r.Thorough() || i <= 1 || i == 2 || i == 4 || i == 5
-		specs = append(specs, baseSpec{fmt.Sprintf("len=%d", n), n, "X1", nil, full})
+		specs = append(specs, baseSpec{fmt.Sprintf("len=%d", n), n, "X1", nil, full, false})
 	}
-	specs = append(specs, baseSpec{fmt.Sprintf("len=%d+armor-aligned", m.alignedLength()), m.alignedLength(), "X1", nil, r.Thorough()})
-	specs = append(specs, baseSpec{"len=70000+bighdr", 70000, "X1", bigHeader(), r.Thorough()},
-		baseSpec{"len=66000+scrypt", 66000, "S1", nil, r.Thorough()})
+	if !r.Thorough() {
+		// 65535 bytes: in the quick tier only for the optional-interface kinds
+		specs = append(specs, baseSpec{"len=65535", 65535, "X1", nil, false, true})
+	}
+	specs = append(specs, baseSpec{fmt.Sprintf("len=%d+armor-aligned", m.alignedLength()), m.alignedLength(), "X1", nil, r.Thorough(), false})
+	specs = append(specs, baseSpec{"len=70000+bighdr", 70000, "X1", bigHeader(), r.Thorough(), false},
+		baseSpec{"len=66000+scrypt", 66000, "S1", nil, r.Thorough(), false})
 
 	var files []*dfile
 	seen := map[[32]byte]bool{}
@@ -241,7 +247,7 @@ func (m *monitor) buildFiles() []*dfile {
 			}
 			seen[h] = true
 			f := &dfile{base: sp.name, length: sp.length, armored: armored, class: class, how: origin + "; " + how,
-				data: data, id: p.Identity, hdr16: hdr16}
+				data: data, id: p.Identity, hdr16: hdr16, ifaceOnly: sp.ifaceOnly}
 			// armor of a damaged payload is ordinary valid armor: de-armoring it
 			// alone repeats the "valid" case, so only the thorough tier does it
 			f.dearmor = armored && (r.Thorough() || strings.HasPrefix(class, "valid") || strings.HasPrefix(class, "armor-") || class == "hdr-trunc")
